@@ -126,12 +126,16 @@ HostTys == {"e2", "e2x", "e2u", "io", "iox", "e2m", "e2mu", "e2a", "e2au", "eu",
 EnumHosts == { Struct(e, -1, "named", <<F(0, FALSE, -1, "u8"), Fo(1, -1, ty, sp), F(2, TRUE, -1, "u8")>>) : e \in Encs, ty \in HostTys, sp \in {"plain", "boxed", "alias", "generic"} }
 CompatTy(a, b) == a = b \/ {a, b} \in {{"e2", "e2x"}, {"e2", "e2u"}, {"io", "iox"}, {"e2m", "e2mu"}, {"e2a", "e2au"}, {"eu", "eux"}}
 HostReaders(S) == { SetField(S, 2, [S.fields[2] EXCEPT !.ty = ty]) : ty \in { t \in HostTys : CompatTy(t, S.fields[2].ty) } }
-PairWriters == IF Tier = "quick" THEN { S \in ThreeFieldsQ : S.shape = "named" /\ S.fields[3].idx \in {2, 5} } \cup EnumHosts ELSE ThreeFieldsQ \cup EnumHosts
+\* a writer that fills an index it does not know with null, read by a version whose LAST field sits at that index - optional, tagged or not, of
+\* every kind (the null of a gap must be accepted as "absent" wherever the field stands in the reader's own order)
+GapWriters == { Struct(e, -1, sh, <<F(0, FALSE, -1, "u8"), F(3, TRUE, -1, "u8")>>) : e \in Encs, sh \in {"named", "tuple"} }
+GapReaders(S) == { [S EXCEPT !.fields = <<S.fields[1], F(n, TRUE, t, ty)>>] : n \in {1, 2}, t \in {-1, 7}, ty \in {"u8", "str", "bytes", "inA", "e2"} }
+PairWriters == GapWriters \cup IF Tier = "quick" THEN { S \in ThreeFieldsQ : S.shape = "named" /\ S.fields[3].idx \in {2, 5} } \cup EnumHosts ELSE ThreeFieldsQ \cup EnumHosts
 \* (two changes in a row; an index the writer uses is never given another meaning: dropping a field and adding a different one
 \* under its index is not among the documented compatible changes)
 TwoStep(S) == S.shape = "named" /\ S.fields[3].idx \in {2, 5}          \* (the writers of the quick tier: the others get single changes)
 KeepsMeaning(S, R) == \A j \in 1..Len(R.fields) : \A i \in 1..Len(S.fields) : R.fields[j].idx = S.fields[i].idx => R.fields[j] = S.fields[i]
-ReadersOf(S) == IF S \in EnumHosts THEN HostReaders(S)
+ReadersOf(S) == IF S \in GapWriters THEN GapReaders(S) ELSE IF S \in EnumHosts THEN HostReaders(S)
                 ELSE Readers(S) \cup { r2 \in UNION { Readers(r1) : r1 \in { x \in Readers(S) : Tier # "quick" /\ TwoStep(S) } } : KeepsMeaning(S, r2) }
 
 \* writers with a field of arbitrary content that the reader does not know: in the middle (a gap / an unknown key) and at the end (surplus)
